@@ -17,26 +17,6 @@ Local Open Scope N_scope.
 
 Ltac splits := repeat match goal with |- _ /\ _ => split end.
 
-Lemma definition_fun f var name params ret body pure sp ctx :
-  definition (S f) var (EFunction name params ret body pure sp) ctx =
-  (_ <- fresh ;; bc <- lower_fbody (statement f) (expression f) body ctx ;;
-   IR.ret (IFunction var (param_ids params) :: bc ++ [IEnd])).
-Proof. reflexivity. Qed.
-
-
-Section CFun.
-Variable u : counts.
-(* `local function V<f>(ps) <body> end` *)
-Lemma cshape_fun l f ps cb bb l1 c c' :
-  cshape u l cb bb l1 (c + 1) c' -> alut_get l f = None ->
-  cshape u l (IFunction f ps :: cb ++ [IEnd]) [SLocalFun (fmt_var f) (map fmt_var ps) bb] l1 c c'.
-Proof.
-  intros (H & Hc & Hf & _) Hlf. split; [|split; [lia | split; [eapply lut_frame_widen; [exact Hf | lia | lia] | repeat constructor]]].
-  pose proof (Em_fun u l f ps cb bb l1 [] [] l1 H (Em_nil u l1)) as He. unfold aname in He. rewrite Hlf in He. exact He.
-Qed.
-
-End CFun.
-
 (* ------------------------------------------------------------------ function definitions at chunk level *)
 
 (* the world after the definition of the function d *)
@@ -80,7 +60,7 @@ Lemma rel_define_function fl W sc e st E stL fv ps body g k scout bc ctx c c2 l 
   (forall d, In d (w_funs W) -> In (fd_var d) (fnames fl)) ->
   fresh_id pv sv bound fl sc fv = true ->
   params_ok pv sv bound ((fv, length ps) :: fl) sc ps = true ->
-  frag_body pv sv bound k ((fv, length ps) :: fl) (rev ps ++ sc) body = Some scout ->
+  frag_stmts pv sv bound ((fv, length ps) :: fl) k (rev ps ++ sc) body = Some scout ->
   lower_fbody (statement g) (expression g) body ctx c = Ok (bc, c2) ->
   ucovers u bc -> bound <= c -> lut_ok bound l c c2 -> E_free E c c2 ->
   let E1 := sset (fmt_var fv) (s_ncell stL) E in
@@ -370,145 +350,7 @@ Qed.
 
 End Sim.
 
-(* ------------------------------------------------------------------ function bodies with local functions *)
 
-Definition is_fundef (s : Resolved.stmt) : bool :=
-  match s with SDefinition _ _ _ _ (EFunction _ _ _ _ _ _) _ => true | _ => false end.
-
-Section BodyFrag.
-Variable pv : N.
-Variable sv : N.
-Variable bound : N.
-
-Lemma frag_body_fun k fl sc nm fv kd t fname params ret body pure fsp dsp rest :
-  frag_body pv sv bound (S k) fl sc (SDefinition nm fv kd t (EFunction fname params ret body pure fsp) dsp :: rest) =
-  (if fresh_id pv sv bound fl sc fv && params_ok pv sv bound ((fv, length (param_ids params)) :: fl) sc (param_ids params)
-      && is_some (frag_body pv sv bound k ((fv, length (param_ids params)) :: fl) (rev (param_ids params) ++ sc) body)
-   then frag_body pv sv bound k ((fv, length (param_ids params)) :: fl) sc rest else None).
-Proof. reflexivity. Qed.
-
-Lemma frag_body_plain k fl sc s rest :
-  is_fundef s = false ->
-  frag_body pv sv bound (S k) fl sc (s :: rest) =
-  match frag_stmt pv sv bound fl k sc s with Some sc' => frag_body pv sv bound k fl sc' rest | None => None end.
-Proof. destruct s; try reflexivity. destruct value; try reflexivity. discriminate. Qed.
-
-Lemma frag_body_app : forall a k fl sc b r,
-  frag_body pv sv bound k fl sc (a ++ b) = Some r ->
-  exists sc1 fl1 k', frag_body pv sv bound k fl sc a = Some (sc1, fl1) /\ frag_body pv sv bound k' fl1 sc1 b = Some r.
-Proof.
-  induction a as [|s a IH]; intros k fl sc b r H.
-  - exists sc, fl, k. split; [|exact H]. destruct k; [discriminate | reflexivity].
-  - destruct k as [|k]; [discriminate|]. cbn [app] in H.
-    destruct (is_fundef s) eqn:Hf.
-    + destruct s; try discriminate Hf. destruct value; try discriminate Hf. rewrite frag_body_fun in H.
-      match type of H with (if ?c then _ else _) = _ => destruct c eqn:Hc; [|discriminate H] end.
-      destruct (IH _ _ _ _ _ H) as (sc1 & fl1 & k' & A & B). exists sc1, fl1, k'. split; [|exact B].
-      rewrite frag_body_fun, Hc. exact A.
-    + rewrite (frag_body_plain _ _ _ _ _ Hf) in H. destruct (frag_stmt pv sv bound fl k sc s) as [sc0|] eqn:Hs; [|discriminate H].
-      destruct (IH _ _ _ _ _ H) as (sc1 & fl1 & k' & A & B). exists sc1, fl1, k'. split; [|exact B].
-      rewrite (frag_body_plain _ _ _ _ _ Hf), Hs. exact A.
-Qed.
-
-Lemma frag_body_fnames : forall ss k fl sc sc' flr,
-  frag_body pv sv bound k fl sc ss = Some (sc', flr) -> incl (fnames fl) (fnames flr).
-Proof.
-  induction ss as [|s ss IH]; intros k fl sc sc' flr H; (destruct k as [|k]; [discriminate|]).
-  - cbn in H. inversion H; subst. apply incl_refl.
-  - destruct (is_fundef s) eqn:Hf.
-    + destruct s; try discriminate Hf. destruct value; try discriminate Hf. rewrite frag_body_fun in H.
-      match type of H with (if ?c then _ else _) = _ => destruct c eqn:Hc; [|discriminate H] end.
-      apply IH in H. intros x Hx. apply H. right. exact Hx.
-    + rewrite (frag_body_plain _ _ _ _ _ Hf) in H. destruct (frag_stmt pv sv bound fl k sc s) as [sc0|] eqn:Hs; [|discriminate H].
-      eapply IH; exact H.
-Qed.
-
-End BodyFrag.
-
-Section BodyShape.
-Variable pv : N.
-Variable sv : N.
-Variable bound : N.
-Variable u : counts.
-
-(* the structure of the emitted statements of a body, and of the body as a whole (the last statement, if it is
-   an expression, is returned) *)
-Definition LB (g : nat) : Prop := forall ss k ctx c cs c' sc fl scr l,
-  mapM (fun s => statement g s ctx) ss c = Ok (cs, c') ->
-  frag_body pv sv bound k fl sc ss = Some scr ->
-  (forall v, v < bound -> alut_get l v = None) -> bound <= c ->
-  exists b l', cshape u l (concat cs) b l' c c' /\ (forall v, v < bound -> alut_get l' v = None).
-
-Definition LF (g : nat) : Prop := forall body k ctx c code c' sc fl scr l,
-  lower_fbody (statement g) (expression g) body ctx c = Ok (code, c') ->
-  frag_body pv sv bound k fl sc body = Some scr ->
-  (forall v, v < bound -> alut_get l v = None) -> bound <= c ->
-  exists b l', cshape u l code b l' c c' /\ (forall v, v < bound -> alut_get l' v = None).
-
-Lemma LB_of g : (forall g', (g' < g)%nat -> LF g') -> LB g.
-Proof.
-  intros IHF ss. induction ss as [|s ss IH]; intros k ctx c cs c' sc fl scr l Hm Hf Hl Hbc.
-  - destruct (mapM_nil_ok _ _ _ _ Hm) as [-> ->]. eexists _, _. split; [apply cshape_nil | exact Hl].
-  - apply mapM_cons_ok in Hm as (y & c1 & ys & Hy & Hys & ->). cbn [concat].
-    destruct k as [|k]; [discriminate|].
-    destruct (is_fundef s) eqn:Hfd.
-    + destruct s; try discriminate Hfd. destruct value; try discriminate Hfd. rewrite frag_body_fun in Hf.
-      match type of Hf with (if ?b then _ else _) = _ => destruct b eqn:Hc; [|discriminate Hf] end.
-      apply andb_prop in Hc as [Hc Hfb]. apply andb_prop in Hc as [Hfr Hpok].
-      destruct (frag_body pv sv bound k ((var, length (param_ids params)) :: fl) (rev (param_ids params) ++ sc) body) as [scout|] eqn:Hfbody; [|discriminate Hfb].
-      destruct g as [|[|g2]]; [cbn in Hy; discriminate Hy | cbn in Hy; discriminate Hy |].
-      cbn [statement] in Hy. rewrite definition_fun in Hy. mon Hy. fresh_all.
-      destruct (IHF g2 ltac:(lia) body k ctx (c + 1) a0 c1 _ _ scout l Hm0 Hfbody Hl ltac:(lia)) as (bb & l1 & Hsb & Hl1).
-      pose proof Hsb as (_ & Hcc1 & _).
-      destruct (fresh_id_inv _ _ _ _ _ _ Hfr) as (_ & _ & _ & Hvb).
-      destruct (IH k ctx c1 ys c' sc _ scr l1 Hys Hf Hl1 ltac:(lia)) as (b2 & l2 & Hs2 & Hl2).
-      eexists _, _. split; [|exact Hl2].
-      eapply cshape_app; [apply cshape_fun; [exact Hsb | apply Hl; exact Hvb] | exact Hs2].
-    + rewrite (frag_body_plain _ _ _ _ _ _ _ _ Hfd) in Hf.
-      destruct (frag_stmt pv sv bound fl k sc s) as [sc1|] eqn:Hs; [|discriminate Hf].
-      destruct (L_stmt_all pv sv bound u fl g k s ctx c y c1 sc sc1 l Hy Hs) as (b1 & l1 & Hs1).
-      pose proof Hs1 as (_ & Hcc1 & Hfr1 & _).
-      assert (Hl1 : forall v, v < bound -> alut_get l1 v = None) by (intros v Hv; rewrite Hfr1 by lia; apply Hl; exact Hv).
-      destruct (IH k ctx c1 ys c' sc1 fl scr l1 Hys Hf Hl1 ltac:(lia)) as (b2 & l2 & Hs2 & Hl2).
-      eexists _, _. split; [eapply cshape_app; eassumption | exact Hl2].
-Qed.
-
-Lemma LF_of g : LB g -> LF g.
-Proof.
-  intros IHB body k ctx c code c' sc fl scr l Hlow Hfrag Hl Hbc. unfold lower_fbody in Hlow.
-  destruct (rev body) as [|last init_rev] eqn:Hrev.
-  - apply ret_ok in Hlow as [<- <-]. eexists _, _. split; [apply cshape_nil | exact Hl].
-  - assert (Hbody : body = rev init_rev ++ [last]) by (rewrite <- (rev_involutive body), Hrev; reflexivity).
-    rewrite Hbody in Hfrag. clear Hbody Hrev.
-    mon Hlow. apply lower_list_ok in Hm as (cs & Hmi & ->).
-    assert (Hwhole : statement g last ctx c0 = Ok (a0, c') ->
-              exists b l', cshape u l (concat cs ++ a0) b l' c c' /\ (forall v, v < bound -> alut_get l' v = None)).
-    { intros Hst. pose proof (mapM_snoc _ _ _ _ _ _ _ _ Hmi Hst) as Hmall.
-      destruct (IHB _ k ctx c _ c' sc fl scr l Hmall Hfrag Hl Hbc) as (b & l' & Hs & Hl').
-      rewrite concat_app in Hs. cbn [concat] in Hs. rewrite app_nil_r in Hs. eauto. }
-    destruct last; try (apply Hwhole; assumption). clear Hwhole.
-    destruct (frag_body_app pv sv bound _ _ _ _ _ _ Hfrag) as (sc1 & fl1 & k' & Hfi & Hfl).
-    destruct k' as [|k']; [discriminate|]. rewrite (frag_body_plain pv sv bound k' fl1 sc1 (SStatementExpression value sp) [] eq_refl) in Hfl.
-    destruct (frag_stmt pv sv bound fl1 k' sc1 (SStatementExpression value sp)) as [sc2|] eqn:Hflast; [|discriminate Hfl].
-    destruct k' as [|k'']; [discriminate|]. rewrite frag_stmt_sexpr in Hflast.
-    destruct (frag_expr pv sv bound fl1 k'' sc1 value) eqn:Hfe; [|discriminate Hflast].
-    mon Hm0. destruct a as [cv rv]. cbn [fst snd] in *.
-    destruct (IHB _ k ctx c cs c0 sc fl (sc1, fl1) l Hmi Hfi Hl Hbc) as (b1 & l1 & Hs1 & Hl1).
-    destruct (L_expr_all pv sv bound u fl1 g k'' value ctx c0 cv rv c' sc1 l1 Hm Hfe) as (b2 & l2 & Hs2 & _).
-    pose proof Hs1 as (_ & Hcc0 & _). pose proof Hs2 as (_ & Hc0c' & Hfr2 & _).
-    eexists _, _. split.
-    + eapply cshape_app; [exact Hs1|]. eapply cshape_app; [exact Hs2|].
-      apply (cshape_plain u l2 (IReturn rv) c' c'); [lia | reflexivity | reflexivity | reflexivity].
-    + intros v Hv. rewrite Hfr2 by lia. apply Hl1. exact Hv.
-Qed.
-
-Theorem L_body_all g : LB g /\ LF g.
-Proof.
-  induction g as [g IH] using lt_wf_ind.
-  assert (HB : LB g) by (apply LB_of; intros g' Hg'; apply (IH g' Hg')).
-  split; [exact HB | apply LF_of; exact HB].
-Qed.
-End BodyShape.
 
 Section Body.
 Variable pv : N.
@@ -522,38 +364,20 @@ Notation rel := (rel pv sv bound u fl W).
 Notation ctx_ok := (ctx_ok bound).
 
 Lemma wsub_world_add d : wsub W (world_add W d).
-Proof. unfold wsub, world_add. cbn. repeat split; auto. Qed.
+Proof. unfold wsub, world_add. cbn. repeat split; auto. apply incl_tl, incl_refl. Qed.
 
-Lemma P_body_zero : P_body pv sv bound u fl W O.
+(* statement lists: a statement (P_exec, the world stays) or a local function (it joins the world) and the rest *)
+Lemma P_blk_succ n :
+  (forall fl' W', P_exec pv sv bound u fl' W' n) -> (forall fl' W', P_blk pv sv bound u fl' W' n) ->
+  P_blk pv sv bound u fl W (S n).
 Proof.
-  intros g k ss ctx c cs c' cend e st r st' sc sc' flr l E stL F Hev. cbn in Hev. inversion Hev; subst. intros. contradiction.
-Qed.
-
-(* the exits of a plain statement, seen as exits of the body *)
-Lemma body_exit_of {A} ctx sc sc' flr e l' c c' c'' cend E stL b (r : SyltSem.res A) (r' : SyltSem.res senv) st' :
-  exit_post pv sv bound u fl W ctx sc e c c' E stL b r st' ->
-  match r, r' with
-  | SyltSem.RStop o, SyltSem.RStop o' => o = o'
-  | SyltSem.RAbrupt a, SyltSem.RAbrupt a' => a = a'
-  | _, _ => False
-  end ->
-  body_post pv sv bound u fl W sc sc' flr e l' c'' cend E stL b r' st'.
-Proof.
-  intros Hp Hrr. destruct r as [x|o|a]; destruct r' as [x'|o'|a']; try contradiction; subst.
-  - cbn [body_post fb_post]. destruct Hp as (rl & Hx & (ev & stL' & -> & Htr)). exists ev, stL'. split; assumption.
-  - cbn [body_post]. destruct a' as [| |v]; [exact I | exact I |]. eapply fb_of_exit. exact Hp.
-Qed.
-
-Lemma P_body_succ n :
-  (forall fl' W', P_exec pv sv bound u fl' W' n) -> (forall fl' W', P_body pv sv bound u fl' W' n) ->
-  P_body pv sv bound u fl W (S n).
-Proof.
-  intros HE HB g k ss ctx c cs c' cend e st r st' sc sc' flr l E stL F Hev Hm Hfrag Hu Hce Hctx Hrel Hint.
+  intros HE HB g k ss ctx c cs c' e st r st' sc sc' flr l E stL F Hev Hm Hfrag Hu Hctx Hrel Hint.
   destruct ss as [|s ss].
   - destruct (mapM_nil_ok _ _ _ _ Hm) as [-> ->]. destruct k as [|k]; [discriminate|]. cbn in Hfrag. inversion Hfrag; subst sc' flr.
     cbn in Hev. inversion Hev; subst r st'.
-    eexists _, _. split; [apply cshape_nil|]. cbn [body_post]. exists W, E, stL, F.
-    splits; [apply XS_nil | exact Hrel | apply wsub_refl | exact Hctx | intros v _; reflexivity | apply incl_refl | apply keep_refl | lia].
+    eexists _, _. split; [apply cshape_nil|]. cbn [blk_post]. exists W, E, stL, F.
+    splits; [apply XS_nil | apply wframe_refl | exact Hrel | apply wsub_refl | apply F_new_refl | apply keep_refl
+             | intros v _; reflexivity | apply incl_refl | intros p lv Hq; left; exact Hq].
   - destruct k as [|k]; [discriminate|].
     apply mapM_cons_ok in Hm as (y & c1 & ys & Hy & Hys & ->). cbn [concat] in *.
     apply ucovers_app in Hu as [Huy Huys].
@@ -562,21 +386,21 @@ Proof.
     cbn [SyltSem.exec_block] in Hev. unfold SyltSem.bind at 1 in Hev.
     destruct (is_fundef s) eqn:Hfd.
     + (* a local function *)
-      destruct s; try discriminate Hfd. destruct value; try discriminate Hfd. rewrite frag_body_fun in Hfrag.
+      destruct s; try discriminate Hfd. destruct value; try discriminate Hfd. rewrite frag_stmts_fun in Hfrag.
       match type of Hfrag with (if ?b then _ else _) = _ => destruct b eqn:Hc; [|discriminate Hfrag] end.
       apply andb_prop in Hc as [Hc Hfb]. apply andb_prop in Hc as [Hfr Hpok].
       set (ps := param_ids params) in *. set (fl' := (var, length ps) :: fl) in *.
-      destruct (frag_body pv sv bound k fl' (rev ps ++ sc) body) as [scout|] eqn:Hfbody; [|discriminate Hfb].
+      destruct (frag_stmts pv sv bound fl' k (rev ps ++ sc) body) as [scout|] eqn:Hfbody; [|discriminate Hfb].
       destruct g as [|[|g2]]; [cbn in Hy; discriminate Hy | cbn in Hy; discriminate Hy |].
       cbn [statement] in Hy. rewrite definition_fun in Hy. fold ps in Hy. mon Hy. fresh_all. rename a0 into bc.
       destruct n as [|[|n2]]; [cbn in Hev; inversion Hev; subst; destruct Hint | cbn in Hev; inversion Hev; subst; destruct Hint |].
       rewrite exec_def_fun in Hev. fold ps in Hev.
       apply ucovers_cons in Huy as [_ Huy]. apply ucovers_app in Huy as [Hubc _].
-      destruct (proj2 (L_body_all pv sv bound u g2) body k ctx (c + 1) bc c1 _ fl' scout l Hm0 Hfbody Hlb ltac:(lia)) as (bb & l1 & Hsb & Hl1).
+      destruct (L_fb_all pv sv bound u fl' g2 k body ctx (c + 1) bc c1 _ scout l Hm0 Hfbody) as (bb & l1 & Hsb).
       pose proof Hsb as (Hemb & Hcc1 & Hfr1 & Hnlb).
       destruct (fresh_id_inv _ _ _ _ _ _ Hfr) as (Hnin & Hnpv & Hnsv & Hvb).
       pose proof (fresh_id_fl _ _ _ _ _ _ Hfr) as Hnfl.
-      destruct (proj1 (L_body_all pv sv bound u (S (S g2))) ss k ctx c1 ys c' sc fl' (sc', flr) l1 Hys Hfrag Hl1 ltac:(lia)) as (_ & _ & (_ & Hc1c' & _) & _).
+      destruct (L_stmts_all pv sv bound u fl' (S (S g2)) k ss ctx c1 ys c' sc (sc', flr) l1 Hys Hfrag) as (_ & _ & (_ & Hc1c' & _)).
       assert (Hlut1 : lut_ok bound l (c + 1) c1) by (eapply lut_ok_sub; [exact Hlut | lia | lia]).
       assert (HEf1 : E_free E (c + 1) c1) by (eapply E_free_sub; [exact HEf | lia | lia]).
       pose proof (wi_allvis _ _ _ _ _ _ _ _ _ _ _ (r_world _ _ _ _ _ _ _ _ _ _ _ Hrel)) as Hall.
@@ -590,65 +414,78 @@ Proof.
       rewrite <- Hbb in Hrel1.
       assert (Hx1 : Exec E (SLocalFun (fmt_var var) (map fmt_var ps) bb) stL (ROk (E1, SigNormal) (lua_def_state stL E1 ps bb)))
         by apply Exec_localfun.
-      assert (Hctx1 : ctx_ok l1 F E1 c1 cend).
+      assert (Hn1 : (s_ncell stL <= s_ncell (lua_def_state stL E1 ps bb))%positive)
+        by (unfold lua_def_state, set_cell, alloc_closure, alloc_cell; cbn [snd s_ncell]; lia).
+      assert (Hf1 : wframe bound c c1 E stL E1 (lua_def_state stL E1 ps bb)).
+      { constructor.
+        - intros t0 p0 Hb0 Hp0. unfold E1. rewrite sget_sset_var by lia. exact Hp0.
+        - intros x p0 Hx. unfold E1 in Hx. destruct (String.eqb_spec x (fmt_var var)) as [->|Hne].
+          + right. right. exists var. split; [reflexivity | exact Hvb].
+          + left. rewrite sget_sset_other in Hx by exact Hne. exact Hx.
+        - intros t0 p0 Hb0 _ Hp0. apply lua_def_old. eapply wf_alloc; [apply (r_wf _ _ _ _ _ _ _ _ _ _ _ Hrel) | exact Hp0].
+        - exact Hn1. }
+      assert (Hctx1 : ctx_ok l1 F E1 c1 c').
       { constructor; [lia | | eapply F_out_sub; [exact HFo | lia | lia] |].
         - intros t0 Ht0. rewrite Hfr1 by lia. apply Hlut. lia.
         - intros t0 Ht0. unfold E1. rewrite sget_sset_var by lia. apply HEf. lia. }
-      destruct (HB fl' (world_add W d) (S (S g2)) k ss ctx c1 ys c' cend (def_env var e st) (def_state var ps body e st) r st' sc sc' flr l1 E1
-                   (lua_def_state stL E1 ps bb) F Hev Hys Hfrag Huys Hce Hctx1 Hrel1 Hint) as (b2 & l2 & Hs2 & Hpost).
-      eexists _, _. split; [eapply cshape_app; [apply cshape_fun; [exact Hsb | apply Hlb; exact Hvb] | exact Hs2]|].
       assert (Hse1 : sext pv fl sc e (def_env var e st)).
       { intros w Hw. unfold def_env. cbn [SyltSem.lookup]. destruct (N.eqb_spec var w) as [->|]; [|reflexivity].
         destruct Hw as [Hw|[Hw|Hw]]; [contradiction | congruence | contradiction]. }
       assert (Hk1 : keep sc E E1) by (intros w Hw; unfold E1; apply sget_sset_var; intros ->; contradiction).
-      assert (Hn1 : (s_ncell stL <= s_ncell (lua_def_state stL E1 ps bb))%positive)
-        by (unfold lua_def_state, set_cell, alloc_closure, alloc_cell; cbn [snd s_ncell]; lia).
-      assert (Hsext' : forall e2, sext pv fl' sc (def_env var e st) e2 -> sext pv fl sc e e2).
-      { intros e2 H2 w Hw. rewrite H2; [apply Hse1; exact Hw|]. destruct Hw as [Hw|[Hw|Hw]]; [left; exact Hw | right; left; exact Hw | right; right; right; exact Hw]. }
+      assert (Hfn1 : incl (fnames fl) (fnames fl')) by (apply incl_tl, incl_refl).
+      destruct (HB fl' (world_add W d) (S (S g2)) k ss ctx c1 ys c' (def_env var e st) (def_state var ps body e st) r st' sc sc' flr l1 E1
+                   (lua_def_state stL E1 ps bb) F Hev Hys Hfrag Huys Hctx1 Hrel1 Hint) as (b2 & l2 & Hs2 & Hpost).
+      eexists _, _. split; [eapply cshape_app; [apply cshape_fun; [exact Hsb | apply Hlb; exact Hvb] | exact Hs2]|].
+      assert (Hxone : ExecS E [SLocalFun (fmt_var var) (map fmt_var ps) bb] stL (ROk (E1, SigNormal) (lua_def_state stL E1 ps bb)))
+        by (apply ExecS_one; exact Hx1).
       destruct r as [e2|o|a].
-      * cbn [body_post] in *. destruct Hpost as (W2 & E2 & stL2 & F2 & Hx2 & Hr2 & Hw2 & Hc2 & Hs2' & Hi2 & Hk2 & Hn2).
-        exists W2, E2, stL2, F2. splits; [cbn [app]; eapply XS_cons; [exact Hx1 | exact Hx2] | exact Hr2 | eapply wsub_trans; [apply wsub_world_add | exact Hw2] | exact Hc2
-                                          | apply Hsext'; exact Hs2' | exact Hi2 | eapply keep_trans; eassumption | lia].
-      * cbn [body_post fb_post] in *. destruct Hpost as (ev & stL2 & Hx2 & Htr). exists ev, stL2. split; [cbn [app]; eapply XS_cons; [exact Hx1 | exact Hx2] | exact Htr].
-      * cbn [body_post fb_post] in *. destruct a as [| |v]; [exact I | exact I |].
-        destruct Hpost as (fl2 & W2 & sc2 & e2 & E2 & Er & stL2 & lv & Hx2 & Hv2 & Hr2 & Hw2 & Hs2' & Hi2 & Hk2 & Hn2).
-        exists fl2, W2, sc2, e2, E2, Er, stL2, lv.
-        splits; [cbn [app]; eapply XS_cons; [exact Hx1 | exact Hx2] | exact Hv2 | exact Hr2 | eapply wsub_trans; [apply wsub_world_add | exact Hw2]
-                 | apply Hsext'; exact Hs2' | exact Hi2 | eapply keep_trans; eassumption | lia].
+      * cbn [blk_post] in *. destruct Hpost as (W2 & E2 & stL2 & F2 & Hx2 & Hf2 & Hr2 & Hw2 & HFn2 & Hk2 & Hs2' & Hi2 & Hwn2).
+        exists W2, E2, stL2, F2.
+        splits; [eapply ExecS_app; eassumption
+                | eapply wframe_trans; [eapply wframe_widen; [exact Hf1 | lia | lia] | eapply wframe_widen; [exact Hf2 | lia | lia]]
+                | exact Hr2 | eapply wsub_trans; [apply wsub_world_add | exact Hw2] | eapply F_new_widen; [exact HFn2 | lia | lia]
+                | eapply keep_trans; eassumption | | exact Hi2 |].
+        -- intros w Hw. rewrite Hs2'; [apply Hse1; exact Hw|]. destruct Hw as [Hw|[Hw|Hw]]; [left; exact Hw | right; left; exact Hw | right; right; right; exact Hw].
+        -- intros p lv Hq. destruct (Hwn2 p lv Hq) as [[Hq'|[-> _]]|Hq']; [left; exact Hq' | right; cbn [d fd_pf]; lia | right; lia].
+      * cbn [blk_post] in *.
+        eapply (exit_pre_w pv sv bound u fl W fl' (world_add W d) ctx sc sc e (def_env var e st) st c c1 c1 c' c c' E stL _ E1 (lua_def_state stL E1 ps bb));
+          [exact Hxone | exact Hf1 | exact Hk1 | exact Hrel | apply wsub_world_add | exact Hfn1 | exact Hse1 | apply incl_refl | exact Hpost | lia | lia | lia | lia].
+      * cbn [blk_post] in *.
+        eapply (exit_pre_w pv sv bound u fl W fl' (world_add W d) ctx sc sc e (def_env var e st) st c c1 c1 c' c c' E stL _ E1 (lua_def_state stL E1 ps bb));
+          [exact Hxone | exact Hf1 | exact Hk1 | exact Hrel | apply wsub_world_add | exact Hfn1 | exact Hse1 | apply incl_refl | exact Hpost | lia | lia | lia | lia].
     + (* a statement *)
-      rewrite (frag_body_plain _ _ _ _ _ _ _ _ Hfd) in Hfrag.
+      rewrite (frag_stmts_plain _ _ _ _ _ _ _ _ Hfd) in Hfrag.
       destruct (frag_stmt pv sv bound fl k sc s) as [sc1|] eqn:Hs; [|discriminate Hfrag].
       destruct (L_stmt_all pv sv bound u fl g k s ctx c y c1 sc sc1 l Hy Hs) as (_ & _ & (_ & Hcc1 & _)).
-      assert (HLr : forall l0, (forall v, v < bound -> alut_get l0 v = None) -> exists b2 l2, cshape u l0 (concat ys) b2 l2 c1 c')
-        by (intros l0 Hl0; destruct (proj1 (L_body_all pv sv bound u g) ss k ctx c1 ys c' sc1 fl (sc', flr) l0 Hys Hfrag Hl0 ltac:(lia)) as (b2 & l2 & H2 & _); eauto).
-      destruct (HLr l Hlb) as (_ & _ & (_ & Hc1c' & _)).
+      assert (HLr : forall l0, exists b2 l2, cshape u l0 (concat ys) b2 l2 c1 c')
+        by (intros l0; eapply (L_stmts_all pv sv bound u fl g); eassumption).
+      destruct (HLr l) as (_ & _ & (_ & Hc1c' & _)).
       assert (Hctxs : ctx_ok l F E c c1) by (eapply ctx_sub; [exact Hctx | lia | lia]).
       destruct (SyltSem.exec n e s st) as [[e1|o|a] st1] eqn:He1.
       2,3: (inversion Hev; subst;
             destruct (HE fl W g k s ctx c y c1 e st _ st' sc sc1 l E stL F He1 Hy Hs Huy Hctxs Hrel Hint) as (b1 & l1 & Hs1 & Hp1);
-            pose proof Hs1 as (_ & _ & Hfr1 & _);
-            destruct (HLr l1) as (b2 & l2 & Hs2); [intros v Hv; rewrite Hfr1 by lia; apply Hlb; exact Hv|];
-            eexists _, _; (split; [eapply cshape_app; eassumption|]); cbn [stmt_post] in Hp1;
-            eapply (body_exit_of ctx sc sc' flr e _ c c'); [eapply exit_app; [exact Hp1 | exact Hc1c'] | reflexivity]).
+            destruct (HLr l1) as (b2 & l2 & Hs2);
+            eexists _, _; (split; [eapply cshape_app; eassumption|]); cbn [stmt_post blk_post] in *;
+            eapply exit_app; [exact Hp1 | exact Hc1c']).
       destruct (HE fl W g k s ctx c y c1 e st _ st1 sc sc1 l E stL F He1 Hy Hs Huy Hctxs Hrel I)
         as (b1 & l1 & Hs1 & E1 & stL1 & F1 & Hok1 & Hse1 & Hinc1).
-      pose proof Hok1 as (Hx1 & Hf1 & Hrel1 & _ & Hk1).
-      assert (Hctx1 : ctx_ok l1 F1 E1 c1 cend) by (eapply (ctx_afterS pv sv bound u fl W); eassumption).
-      destruct (HB fl W g k ss ctx c1 ys c' cend e1 st1 r st' sc1 sc' flr l1 E1 stL1 F1 Hev Hys Hfrag Huys Hce Hctx1 Hrel1 Hint)
+      pose proof Hok1 as (Hx1 & Hf1 & Hrel1 & HFn1 & Hk1).
+      assert (Hctx1 : ctx_ok l1 F1 E1 c1 c') by (eapply (ctx_afterS pv sv bound u fl W); eassumption).
+      destruct (HB fl W g k ss ctx c1 ys c' e1 st1 r st' sc1 sc' flr l1 E1 stL1 F1 Hev Hys Hfrag Huys Hctx1 Hrel1 Hint)
         as (b2 & l2 & Hs2 & Hpost).
       eexists _, _. split; [eapply cshape_app; eassumption|].
       pose proof (wr_ncell _ _ _ _ _ _ _ Hf1) as Hn1.
-      assert (Hkk : forall E2, keep sc1 E1 E2 -> keep sc E E2) by (intros E2 H2 w Hw; rewrite (H2 w (Hinc1 w Hw)); apply Hk1; exact Hw).
       destruct r as [e2|o|a].
-      * cbn [body_post] in *. destruct Hpost as (W2 & E2 & stL2 & F2 & Hx2 & Hr2 & Hw2 & Hc2 & Hs2' & Hi2 & Hk2 & Hn2).
-        exists W2, E2, stL2, F2. splits; [eapply ExecS_app; eassumption | exact Hr2 | exact Hw2 | exact Hc2
-                                          | eapply sext_trans; eassumption | eapply incl_tran; eassumption | apply Hkk; exact Hk2 | lia].
-      * cbn [body_post fb_post] in *. destruct Hpost as (ev & stL2 & Hx2 & Htr). exists ev, stL2. split; [eapply ExecS_app; eassumption | exact Htr].
-      * cbn [body_post fb_post] in *. destruct a as [| |v]; [exact I | exact I |].
-        destruct Hpost as (fl2 & W2 & sc2 & e2 & E2 & Er & stL2 & lv & Hx2 & Hv2 & Hr2 & Hw2 & Hs2' & Hi2 & Hk2 & Hn2).
-        exists fl2, W2, sc2, e2, E2, Er, stL2, lv.
-        splits; [eapply ExecS_app; eassumption | exact Hv2 | exact Hr2 | exact Hw2 | eapply sext_trans; eassumption
-                 | eapply incl_tran; eassumption | apply Hkk; exact Hk2 | lia].
+      * cbn [blk_post] in *. destruct Hpost as (W2 & E2 & stL2 & F2 & Hx2 & Hf2 & Hr2 & Hw2 & HFn2 & Hk2 & Hs2' & Hi2 & Hwn2).
+        exists W2, E2, stL2, F2.
+        splits; [eapply ExecS_app; eassumption
+                | eapply wframe_trans; [eapply wframe_widen; [exact Hf1 | lia | lia] | eapply wframe_widen; [exact Hf2 | lia | lia]]
+                | exact Hr2 | exact Hw2 | eapply F_new_trans; eassumption
+                | intros w Hw; rewrite (Hk2 w (Hinc1 w Hw)); apply Hk1; exact Hw
+                | eapply sext_trans; eassumption | eapply incl_tran; eassumption |].
+        intros p lv Hq. destruct (Hwn2 p lv Hq) as [Hq'|Hq']; [left; exact Hq' | right; lia].
+      * cbn [blk_post] in *. eapply (exit_pre pv sv bound u fl W ctx sc sc1 e e1 st st1); eassumption.
+      * cbn [blk_post] in *. eapply (exit_pre pv sv bound u fl W ctx sc sc1 e e1 st st1); eassumption.
 Qed.
 
 (* the body block after a prefix that ended normally *)
@@ -689,13 +526,12 @@ Proof.
 Qed.
 
 Lemma P_fb_succ n :
-  (forall fl' W', P_eval pv sv bound u fl' W' n) -> (forall fl' W', P_body pv sv bound u fl' W' n) ->
+  (forall fl' W', P_eval pv sv bound u fl' W' n) -> (forall fl' W', P_blk pv sv bound u fl' W' n) ->
   P_fb pv sv bound u fl W (S n).
 Proof.
   intros IHe IHb g k body ctx c code c' e st r st' sc [sc' flr] l E stL F Hev Hlow Hfrag Hu Hctx Hrel Hint.
   pose proof Hctx as [Hbc Hlut HFo HEf].
-  assert (Hlb : forall v, v < bound -> alut_get l v = None) by (intros v Hv; apply Hlut; right; exact Hv).
-  destruct (proj2 (L_body_all pv sv bound u g) body k ctx c code c' sc fl (sc', flr) l Hlow Hfrag Hlb Hbc) as (b0 & l0 & Hs0 & _).
+  destruct (L_fb_all pv sv bound u fl g k body ctx c code c' sc (sc', flr) l Hlow Hfrag) as (b0 & l0 & Hs0).
   pose proof Hs0 as (_ & Hcc' & _).
   (* an abrupt end is outside what the post-condition says *)
   assert (Hab : r = SyltSem.RAbrupt SyltSem.CBreak \/ r = SyltSem.RAbrupt SyltSem.CContinue ->
@@ -716,7 +552,7 @@ Proof.
   - assert (Hbody : body = rev init_rev ++ [last]) by (rewrite <- (rev_involutive body), Hrev; reflexivity).
     mon Hlow. apply lower_list_ok in Hm as (cs & Hmi & ->).
     pose proof Hfrag as Hfrag0.
-    destruct (frag_body_app pv sv bound _ _ _ _ _ _ Hfrag0) as (sc1 & fl1 & k' & Hfi & Hfl).
+    destruct (frag_stmts_app pv sv bound _ _ _ _ _ _ Hfrag0) as (sc1 & fl1 & k' & Hfi & Hfl).
     apply ucovers_app in Hu as [Hui Hul].
     (* the last statement is not an expression: the value is nil *)
     assert (Hgen : SyltSem.bind (SyltSem.exec_block n e (rev init_rev ++ [last])) (fun _ : senv => SyltSem.ret (SV Values.VLuaNil)) st = (r, st') ->
@@ -729,49 +565,54 @@ Proof.
       unfold SyltSem.bind at 1 in Hev'.
       destruct (SyltSem.exec_block n e (rev init_rev ++ [last]) st) as [[e1|o|cc] st1] eqn:He1.
       3: { inversion Hev'; subst. destruct cc as [| |v]; [apply Hab; auto | apply Hab; auto |].
-           destruct (IHb fl W g k _ ctx c _ c' c' e st _ st' sc sc' flr l E stL F He1 Hmall Hfrag0 Huall (N.le_refl _) Hctx Hrel Hint)
+           destruct (IHb fl W g k _ ctx c _ c' e st _ st' sc sc' flr l E stL F He1 Hmall Hfrag0 Huall Hctx Hrel Hint)
              as (b1 & l1 & Hs1 & Hpost). rewrite Hcc in Hs1.
-           eexists _, _. split; [exact Hs1|]. cbn [body_post] in Hpost. exact Hpost. }
+           eexists _, _. split; [exact Hs1|]. cbn [blk_post] in Hpost. eapply fb_of_exit. exact Hpost. }
       2: { inversion Hev'; subst.
-           destruct (IHb fl W g k _ ctx c _ c' c' e st _ st' sc sc' flr l E stL F He1 Hmall Hfrag0 Huall (N.le_refl _) Hctx Hrel Hint)
+           destruct (IHb fl W g k _ ctx c _ c' e st _ st' sc sc' flr l E stL F He1 Hmall Hfrag0 Huall Hctx Hrel Hint)
              as (b1 & l1 & Hs1 & Hpost). rewrite Hcc in Hs1.
-           eexists _, _. split; [exact Hs1|]. cbn [body_post] in Hpost. exact Hpost. }
+           eexists _, _. split; [exact Hs1|]. cbn [blk_post fb_post] in *.
+           destruct Hpost as (rl & Hx & (ev & stL' & -> & Htr)). exists ev, stL'. split; assumption. }
       cbn in Hev'. inversion Hev'; subst r st'. clear Hev'.
-      destruct (IHb fl W g k _ ctx c _ c' c' e st _ st1 sc sc' flr l E stL F He1 Hmall Hfrag0 Huall (N.le_refl _) Hctx Hrel I)
-        as (b1 & l1 & Hs1 & W1 & E1 & stL1 & F1 & Hx1 & Hrel1 & Hw1 & _ & Hse1 & Hinc1 & Hk1 & Hn1). rewrite Hcc in Hs1.
+      destruct (IHb fl W g k _ ctx c _ c' e st _ st1 sc sc' flr l E stL F He1 Hmall Hfrag0 Huall Hctx Hrel I)
+        as (b1 & l1 & Hs1 & W1 & E1 & stL1 & F1 & Hx1 & Hf1 & Hrel1 & Hw1 & _ & Hk1 & Hse1 & Hinc1 & _). rewrite Hcc in Hs1.
       eexists _, _. split; [exact Hs1|].
       exists flr, W1, E1, SigNormal, stL1, sc', e1.
-      splits; [exact Hx1 | left; split; reflexivity | exact Hrel1 | exact Hw1 | exact Hse1 | exact Hinc1 | exact Hk1 | exact Hn1]. }
+      splits; [exact Hx1 | left; split; reflexivity | exact Hrel1 | exact Hw1 | exact Hse1 | exact Hinc1 | exact Hk1 | apply (wr_ncell _ _ _ _ _ _ _ Hf1)]. }
     destruct last; try (apply Hgen; assumption).
     (* the last statement is an expression: its value is returned *)
     clear Hgen.
-    destruct k' as [|k']; [discriminate|]. rewrite (frag_body_plain pv sv bound) in Hfl by reflexivity.
-    match type of Hfl with match ?x with _ => _ end = _ => destruct x as [sc2|] eqn:Hflast; [|discriminate Hfl] end.
-    destruct k' as [|k'']; [discriminate|]. rewrite frag_stmt_sexpr in Hflast.
-    destruct (frag_expr pv sv bound fl1 k'' sc1 value) eqn:Hfe; [|discriminate Hflast].
+    destruct k' as [|k']; [discriminate|]. rewrite (frag_stmts_plain pv sv bound fl1) in Hfl by reflexivity.
+    destruct k' as [|k'']; [discriminate|]. rewrite frag_stmt_sexpr in Hfl.
+    destruct (frag_expr pv sv bound fl1 k'' sc1 value) eqn:Hfe; [|discriminate Hfl].
     mon Hm0. destruct a as [code_v rv]. cbn [fst snd] in *.
     apply ucovers_app in Hul as [Huv Hur].
     assert (Hcrv : 1 <= count_of u rv) by (eapply Hur; [left; reflexivity | left; reflexivity]).
     assert (Hrest : forall l0, exists b2 l2, cshape u l0 code_v b2 l2 c0 c' /\ c0 <= rv /\ rv < c')
       by (intros lx; apply (L_expr_all pv sv bound u fl1 g k'' value ctx c0 code_v rv c' sc1 lx Hm Hfe)).
     destruct (Hrest l) as (_ & _ & (_ & Hc0' & _) & _).
+    destruct (L_stmts_all pv sv bound u fl g k (rev init_rev) ctx c cs c0 sc (sc1, fl1) l Hmi Hfi) as (_ & _ & (_ & Hcc0 & _)).
     assert (Hret : forall l0, cshape u l0 [IReturn rv] (fst (agen_one u l0 (IReturn rv))) l0 c' c')
       by (intros lx; apply cshape_plain; [lia | reflexivity | reflexivity | reflexivity]).
-    pose proof (frag_body_fnames pv sv bound _ _ _ _ _ _ Hfi) as Hfn.
+    pose proof (frag_stmts_fnames pv sv bound _ _ _ _ _ _ Hfi) as Hfn.
+    assert (Hctxi : ctx_ok l F E c c0) by (eapply ctx_sub; [exact Hctx | lia | lia]).
     unfold SyltSem.bind at 1 in Hev.
     destruct (SyltSem.exec_block n e (rev init_rev) st) as [[e1|o|cc] st1] eqn:He1.
     3: { inversion Hev; subst. destruct cc as [| |v]; [apply Hab; auto | apply Hab; auto |].
-         destruct (IHb fl W g k _ ctx c _ c0 c' e st _ st' sc sc1 fl1 l E stL F He1 Hmi Hfi Hui Hc0' Hctx Hrel Hint)
+         destruct (IHb fl W g k _ ctx c _ c0 e st _ st' sc sc1 fl1 l E stL F He1 Hmi Hfi Hui Hctxi Hrel Hint)
            as (b1 & l1 & Hs1 & Hp1). destruct (Hrest l1) as (b2 & l2 & Hs2 & _).
          eexists _, _. split; [eapply cshape_app; [exact Hs1|]; eapply cshape_app; [exact Hs2 | apply Hret]|].
-         cbn [body_post] in Hp1. apply (fb_app_stop sc e E stL b1 _ tt); [exact I | exact Hp1]. }
+         cbn [blk_post] in Hp1. apply (fb_app_stop sc e E stL b1 _ tt); [exact I | eapply fb_of_exit; exact Hp1]. }
     2: { inversion Hev; subst.
-         destruct (IHb fl W g k _ ctx c _ c0 c' e st _ st' sc sc1 fl1 l E stL F He1 Hmi Hfi Hui Hc0' Hctx Hrel Hint)
+         destruct (IHb fl W g k _ ctx c _ c0 e st _ st' sc sc1 fl1 l E stL F He1 Hmi Hfi Hui Hctxi Hrel Hint)
            as (b1 & l1 & Hs1 & Hp1). destruct (Hrest l1) as (b2 & l2 & Hs2 & _).
          eexists _, _. split; [eapply cshape_app; [exact Hs1|]; eapply cshape_app; [exact Hs2 | apply Hret]|].
-         cbn [body_post] in Hp1. apply (fb_app_stop sc e E stL b1 _ tt); [exact I | exact Hp1]. }
-    destruct (IHb fl W g k _ ctx c _ c0 c' e st _ st1 sc sc1 fl1 l E stL F He1 Hmi Hfi Hui Hc0' Hctx Hrel I)
-      as (b1 & l1 & Hs1 & W1 & E1 & stL1 & F1 & Hx1 & Hrel1 & Hw1 & Hctx1 & Hse1 & Hinc1 & Hk1 & Hn1).
+         cbn [blk_post fb_post] in *. destruct Hp1 as (rl & Hx1 & (ev & stL1 & -> & Htr)).
+         exists ev, stL1. split; [apply ExecS_app_stop; [exact Hx1 | intros []] | exact Htr]. }
+    destruct (IHb fl W g k _ ctx c _ c0 e st _ st1 sc sc1 fl1 l E stL F He1 Hmi Hfi Hui Hctxi Hrel I)
+      as (b1 & l1 & Hs1 & W1 & E1 & stL1 & F1 & Hx1 & Hf1 & Hrel1 & Hw1 & HFn1 & Hk1 & Hse1 & Hinc1 & _).
+    assert (Hctx1 : ctx_ok l1 F1 E1 c0 c') by (eapply (ctx_after_blk bound u); eassumption).
+    pose proof (wr_ncell _ _ _ _ _ _ _ Hf1) as Hn1.
     destruct (SyltSem.eval n e1 value st1) as [[v_|o|cc] st2] eqn:He2.
     3: { inversion Hev; subst. destruct cc as [| |v]; [apply Hab; auto | apply Hab; auto |].
          destruct (IHe fl1 W1 g k'' value ctx c0 code_v rv c' e1 st1 _ st' sc1 l1 E1 stL1 F1 He2 Hm Hfe Huv Hctx1 Hrel1 Hint)
@@ -909,7 +750,7 @@ Lemma caller_back d sc e st E stL fl2 W2 sc2 e2 E2 st' stL' :
   (s_ncell stL <= s_ncell stL')%positive ->
   rel sc e st' E stL' /\ call_frame bound E stL stL'.
 Proof.
-  intros Hrel Hd Hvis Hrel' (HwS & HwL & HwCS & HwCL) Hinc HeS HeL Hnc.
+  intros Hrel Hd Hvis Hrel' (HwS & HwL & HwCS & HwCL & _) Hinc HeS HeL Hnc.
   pose proof Hrel as [Hv Hb Hi Hp Hpb HpE HpG Hwf Ht Hli HW].
   pose proof Hrel' as [Hv' Hb' Hi' Hp' Hpb' HpE' HpG' Hwf' Ht' Hli' HW'].
   destruct (wi_visS _ _ _ _ _ _ _ _ _ _ _ HW d Hd Hvis) as [HnameS HagS].
@@ -1066,8 +907,8 @@ Variable bound : N.
 Variable u : counts.
 
 Definition P_all_at (n : nat) (fl : list (N * nat)) (W : world) : Prop :=
-  P_eval pv sv bound u fl W n /\ P_exec pv sv bound u fl W n /\ P_execs pv sv bound u fl W n /\
-  P_bv pv sv bound u fl W n /\ P_body pv sv bound u fl W n /\ P_fb pv sv bound u fl W n /\ P_apply pv sv bound u fl W n.
+  P_eval pv sv bound u fl W n /\ P_exec pv sv bound u fl W n /\ P_blk pv sv bound u fl W n /\
+  P_bv pv sv bound u fl W n /\ P_fb pv sv bound u fl W n /\ P_apply pv sv bound u fl W n.
 
 Lemma P_apply_zero fl W : P_apply pv sv bound u fl W O.
 Proof.
@@ -1075,16 +916,17 @@ Proof.
 Qed.
 
 (* by induction on the fuel of the reference interpreter, for every set of callable functions and every world:
-   a call runs the body of the callee, in the world of the callee, with less fuel *)
+   a call runs the body of the callee, in the world of the callee, with less fuel; a statement list runs in worlds
+   that grow with the local functions it defines *)
 Theorem P_all n : forall fl W, P_all_at n fl W.
 Proof.
   induction n as [|n IH]; intros fl W.
-  - split; [apply P_eval_zero|]. split; [apply P_stmt_zero|]. split; [apply P_stmt_zero|].
-    split; [apply P_bv_zero|]. split; [apply P_body_zero|]. split; [apply P_fb_zero | apply P_apply_zero].
-  - destruct (IH fl W) as (IHe & IHs & IHss & IHb & IHbd & IHf & IHa).
+  - split; [apply P_eval_zero|]. split; [apply P_exec_zero|]. split; [apply P_blk_zero|].
+    split; [apply P_bv_zero|]. split; [apply P_fb_zero | apply P_apply_zero].
+  - destruct (IH fl W) as (IHe & IHs & IHss & IHb & IHf & IHa).
     split; [apply P_eval_succ; assumption|]. split; [apply P_exec_succ; assumption|].
-    split; [apply P_execs_succ; assumption|]. split; [apply P_bv_succ; assumption|].
-    split; [apply P_body_succ; intros fl' W'; apply (IH fl' W')|].
+    split; [apply P_blk_succ; intros fl' W'; apply (IH fl' W')|].
+    split; [apply P_bv_succ; [intros fl' W'; apply (IH fl' W') | assumption]|].
     split; [apply P_fb_succ; intros fl' W'; apply (IH fl' W')|].
     apply P_apply_succ. intros fl' W'. apply (IH fl' W').
 Qed.
